@@ -342,3 +342,22 @@ V('jx-right-before-left', JX, "                childid, start_of_span = traverse
 V('pderiv-cat-of-child', 'depccg/printer/deriv.py', "            result = str(node.cat)\n", "            result = str(node.children[0].cat)\n", ['C07'])
 V('pi-silent-rename-index', PI, "        for sentence_index, trees in enumerate(nbest_trees, 1):\n            for tree, log_prob in trees:\n                print(header.format(sentence_index, log_prob), file=file)\n                print(formatter(tree), file=file)",
   "        for sid, nbest in enumerate(nbest_trees, 1):\n            for tree, log_prob in nbest:\n                print(header.format(sid, log_prob), file=file)\n                print(formatter(tree), file=file)", ['C07'], expect='silent')
+
+# ---------------------------------------------------------------- C15
+V('pi-ccg2lambda-no-symbol', PI, "            jigg_xml = to_jigg_xml(nbest_trees, use_symbol=lang == 'ja')\n            _, formulas_list", "            jigg_xml = to_jigg_xml(nbest_trees)\n            _, formulas_list", ['C15'])
+V('pi-jiggccg2lambda-no-symbol', PI, "        jigg_xml = to_jigg_xml(nbest_trees, use_symbol=lang == 'ja')\n        result_xml_str", "        jigg_xml = to_jigg_xml(nbest_trees)\n        result_xml_str", ['C15'])
+V('pi-jigg-symbol-for-en', PI, "                use_symbol=get_global_language() == 'ja',", "                use_symbol=get_global_language() == 'en',", ['C15'])
+V('jx-rule-always-string', JX, "'rule', node.op_symbol if self.use_symbol else node.op_string", "'rule', node.op_string if self.use_symbol else node.op_string", ['C15'])
+V('jx-terminal-template', JX, "xml_node.set('terminal', f's{self.sid}_{start_of_span}')", "xml_node.set('terminal', f't{self.sid}_{start_of_span}')", ['C15'])
+V('jx-token-id-offset', JX, "token_node.set('id', f's{sentence_index}_{token_index}')", "token_node.set('id', f's{sentence_index}_{token_index + 1}')", ['C15'])
+V('jx-id-counter-stuck', JX, "        self._spid += 1\n        return self._spid", "        return self._spid + 1", ['C15'])
+V('jx-id-after-recursion', JX, "            id = f's{self.sid}_sp{self.spid}'\n            xml_node = etree.SubElement(res, 'span')\n            xml_node.set('category', _cat_multi_valued(node.cat))\n            xml_node.set('id', id)",
+  "            xml_node = etree.SubElement(res, 'span')\n            xml_node.set('category', _cat_multi_valued(node.cat))\n            xml_node.set('id', f's{self.sid}_sp{self.spid}')\n            id = f's{self.sid}_sp{self.spid}'", ['C15'])
+V('jx-converter-per-tree', JX, "        converter = _ConvertToJiggXML(sentence_index, use_symbol)\n        for tree, score in parsed:\n            sentence_node.append(converter.process(tree, score))", "        for tree, score in parsed:\n            converter = _ConvertToJiggXML(sentence_index, use_symbol)\n            sentence_node.append(converter.process(tree, score))", ['C15'])
+V('jx-no-root-attr', JX, "        res.set('root', str(id))\n", "", ['C15'])
+V('jx-child-attr-renamed', JX, "xml_node.set('child', childid)", "xml_node.set('children', childid)", ['C15'])
+V('px-cat-attr-renamed', PX, "            rule_node.set('cat', str(node.cat))", "            rule_node.set('category', str(node.cat))", ['C15'])
+V('px-leaf-tag-renamed', PX, "leaf_node = etree.SubElement(parent, 'lf')", "leaf_node = etree.SubElement(parent, 'leaf')", ['C15'])
+V('rd-xml-reads-extra-key', RD, "                    chunk=attrib['chunk']\n", "                    chunk=attrib['chunk'],\n                    sense=attrib['sense']\n", ['C15'])
+V('ja-symbol-renamed', JA, 'op_symbol=">Bx1"', 'op_symbol=">Bx"', ['C15', 'C04'])
+V('pi-silent-local-lang', PI, "                use_symbol=get_global_language() == 'ja',", "                use_symbol='ja' == get_global_language(),", ['C15'], expect='silent')
